@@ -85,5 +85,24 @@ pub fn solve(args: &Args) {
             }
         }
     }
+    // Karatsuba multiplication of big-integer polynomials (used by the lift step of the solver) against the schoolbook product
+    for &n in &[1usize, 2, 8, 16, 32, 64] {
+        for bits in [8u32, 70, 300] {
+            let big = |rng: &mut rand_chacha::ChaCha20Rng| -> BigInt {
+                let mut x = BigInt::from(rng.gen_range(0..255u32));
+                for _ in 0..(bits / 8) {
+                    x = x * 256 + BigInt::from(rng.gen_range(0..256u32));
+                }
+                if rng.gen::<bool>() { -x } else { x }
+            };
+            let a: Vec<BigInt> = (0..n).map(|_| big(&mut rng)).collect();
+            let b: Vec<BigInt> = (0..n).map(|_| big(&mut rng)).collect();
+            let (status, prod) = match guarded(|| verif::karatsuba_bigint(&a, &b)) {
+                Outcome::Ret(p) => ("some", p),
+                Outcome::Panic(_) => ("panic", vec![]),
+            };
+            out.emit(json!({"ev":"karatsuba","n":n,"a":poly_json(&a),"b":poly_json(&b),"status":status,"prod":poly_json(&prod),"tag":format!("karatsuba-n{}-bits{}", n, bits)}));
+        }
+    }
     println!("events {}", out.finish());
 }
